@@ -155,7 +155,8 @@ def _mk(chi, flags, with_mf, presort=False):
     s = Source()
     s.name = 's'
     s.valid = np.array(flags)
-    s.flux = np.ones(len(flags))
+    # flag-4 points carry log10 fluxes, which may be zero or negative; set in the order a parsed line sets them (flags first)
+    s.flux = np.array([(-0.5 if j % 2 else 0.0) if v == 4 else 1.0 for j, v in enumerate(flags)])
     s.error = np.ones(len(flags)) * 0.1
     i = FitInfo(s)
     n = len(chi)
@@ -167,6 +168,7 @@ def _mk(chi, flags, with_mf, presort=False):
     i.model_fluxes = (np.arange(n * 2).reshape(n, 2) * 1.0 if with_mf else None)
     if presort:
         i.sort()
+    i.n_fits          # looked at before any selection (e.g. to report the total): later selections must not be confused by that
     return i
 
 
